@@ -25,7 +25,14 @@ package prefork
 //@   on call field:OnMasterReady -> e:
 //@     requires[all-children-have-waiters] waited == started
 //@   on call Prefork.shutdownChildren:
+//@     nohavoc
 //@     effect shut = shut + 1
+//@   on call Prefork.logger -> lg:
+//@     nohavoc
+//@   on call value:cancel:
+//@     nohavoc
+//@   on call Logger.Printf:
+//@     nohavoc
 //@   on call errors.Join(a, b) -> j:
 //@     nohavoc
 //@     ensures a != nil ==> j != nil
